@@ -77,7 +77,8 @@ def run(ctx):
     ]
     return vlib.finish(ctx, rule="for each representative action: count the N watched libc calls of the fault-free run, then fail "
                        "call k for every k in 1..N x errno in {EIO, EACCES, ENOSPC} in a fresh process; violation = the call "
-                       "returns Ok / the phase exits 0 while result or directory differ from the fault-free run. "
+                       "returns Ok / the phase exits 0 (whether the directory then differs from the fault-free run - silent "
+                       "corruption - or not - an ignored failure). "
                        "distinct_nontrivial = number of distinct injection points (action, k); FaultWrapTrace checks the "
                        "enumeration is complete.", exhaustive=True)
 
